@@ -187,7 +187,7 @@ pub fn mutate(c: &mut Craft, attacker: &Peer, rng: &mut Rng) -> String {
             let cid = s.get("call").and_then(|c| c.get("executed")).and_then(|e| e.get("scalar")).and_then(|x| x.as_str()).map(|s| s.to_string());
             if let Some(cid) = cid {
                 let agg = c.j["cid_info"]["service_result_store"][&cid].clone();
-                let ah = agg["argument_hash"].as_str().unwrap_or("").to_string();
+                let ah = agg["argument_hash"].as_str().filter(|h| !h.is_empty()).unwrap_or("h").to_string();   // (an empty string would abort the decoder: finding rkyv NonNull)
                 let tet = c.j["cid_info"]["tetraplet_store"][agg["tetraplet_cid"].as_str().unwrap_or("")].clone();
                 let v = c.add_raw_value(match rng.below(3) { 0 => "not json", 1 => "{\"error_code\":18446744073709551615,\"message\":\"m\"}", _ => "[[[[" });
                 let t = c.add_tetraplet(&attacker.id, tet["service_id"].as_str().unwrap_or("s"), tet["function_name"].as_str().unwrap_or("f"), "");
